@@ -1,6 +1,8 @@
 package vc
 
 import (
+	"go/token"
+	"sort"
 	"fmt"
 	"regexp"
 	"go/types"
@@ -75,10 +77,12 @@ func (fr *frame) callFunction(v ssa.Value, callee *ssa.Function, args, binds []V
 	if fr.callLog == nil {
 		fr.callLog = map[string][][]Val{}
 	}
-	fr.callLog[callee.Name()] = append(fr.callLog[callee.Name()], args)
-	fr.beforeCall(callee.Name(), args, pos)
+	nm := stripTypeArgs(callee.Name()) // instances of a generic function are recorded under its plain name
+	fr.callLog[nm] = append(fr.callLog[nm], args)
+	fr.notePos(nm, pos)
+	fr.beforeCall(nm, args, pos)
 	var res Val
-	if u.trackCalls[callee.Name()] {
+	if u.trackCalls[nm] {
 		res = fr.trackedCall(v, callee, args, binds, pos)
 	} else {
 		res = fr.callFunction2(v, callee, args, binds, pos)
@@ -86,16 +90,16 @@ func (fr *frame) callFunction(v ssa.Value, callee *ssa.Function, args, binds []V
 	if fr.resLog == nil {
 		fr.resLog = map[string][]Val{}
 	}
-	fr.resLog[callee.Name()] = append(fr.resLog[callee.Name()], res)
+	fr.resLog[nm] = append(fr.resLog[nm], res)
 	return res
 }
 
 // trackedCall maintains the ghost call record of functions named in ncalls()/lastarg()/lastres()
 func (fr *frame) trackedCall(v ssa.Value, callee *ssa.Function, args, binds []Val, pos ssa.Instruction) Val {
 	u := fr.u
-	name := callee.Name()
-	ck := u.regKey("Calls."+name, "Int")
-	fr.st.set(ck, "(+ "+fr.st.get(u, ck)+" 1)")
+	name := stripTypeArgs(callee.Name())
+	ck := u.regKey("Calls."+name, u.mode.idxSort())
+	fr.st.set(ck, u.idxAdd(fr.st.get(u, ck), u.mode.idxLit(1)))
 	for i, a := range args {
 		if a.typ == nil {
 			continue
@@ -350,7 +354,7 @@ func (fr *frame) contractCall(v ssa.Value, callee *ssa.Function, ct *Contract, a
 			continue // an assertion about the callee's own calls: not visible to callers
 		}
 		if _, err := post.boolExpr(en.E); err != nil {
-			u.bindingError(fmt.Sprintf("postcondition %d of %s: %v", k+1, ct.Key, err))
+			u.note("postcondition %d of %s cannot be used at this call site and is not assumed: %v", k+1, ct.Key, err)
 			continue
 		}
 		guard := fr.cur
@@ -662,6 +666,12 @@ func (fr *frame) beforeCall(name string, args []Val, pos ssa.Instruction) {
 	if fr.contract == nil || !fr.top {
 		return
 	}
+	if len(fr.contract.Before[name]) > 0 {
+		if fr.u.beforeSeen == nil {
+			fr.u.beforeSeen = map[string]bool{}
+		}
+		fr.u.beforeSeen[name] = true
+	}
 	for k, cl := range fr.contract.Before[name] {
 		env := fr.specEnvAt(fr.blk, fr.st, nil)
 		env.inclusive = true
@@ -690,6 +700,7 @@ func (fr *frame) invokeCallVals(v ssa.Value, c *ssa.CallCommon, recv Val, rest [
 		fr.resLog = map[string][]Val{}
 	}
 	fr.callLog[name] = append(fr.callLog[name], append([]Val{recv}, rest...))
+	fr.notePos(name, v.(ssa.Instruction))
 	if !u.trackCalls[name] {
 		r := fr.invokeCallVals2(v, c, recv, rest)
 		fr.resLog[name] = append(fr.resLog[name], r)
@@ -698,8 +709,8 @@ func (fr *frame) invokeCallVals(v ssa.Value, c *ssa.CallCommon, recv Val, rest [
 	defer func() {
 		// the tracked path records the result below
 	}()
-	ck := u.regKey("Calls."+name, "Int")
-	fr.st.set(ck, "(+ "+fr.st.get(u, ck)+" 1)")
+	ck := u.regKey("Calls."+name, u.mode.idxSort())
+	fr.st.set(ck, u.idxAdd(fr.st.get(u, ck), u.mode.idxLit(1)))
 	for i, a := range rest {
 		if a.typ == nil {
 			continue
@@ -778,10 +789,13 @@ func (e *Engine) ifaceContract(t types.Type, method string) *Contract {
 // contractCallSig: like contractCall but for interface methods / func values where only a signature is known.
 // Parameter names come from the contract's "ghost params a,b,c" line or default to recv,p0,p1...
 func (fr *frame) contractCallSig(v ssa.Value, ct *Contract, sig *types.Signature, args []Val, pos ssa.Instruction, name string) Val {
+	return fr.contractCallSigNames(v, ct, sig, args, pos, name, []string{"recv"})
+}
+
+func (fr *frame) contractCallSigNames(v ssa.Value, ct *Contract, sig *types.Signature, args []Val, pos ssa.Instruction, name string, names []string) Val {
 	u := fr.u
 	pre := fr.st.clone()
 	env := &specEnv{u: u, st: pre, old: pre, vars: map[string]Val{}, pkgPath: ct.PkgPath}
-	names := []string{"recv"}
 	for i := 0; i < sig.Params().Len(); i++ {
 		n := sig.Params().At(i).Name()
 		if n == "" || n == "_" {
@@ -855,7 +869,7 @@ func (fr *frame) contractCallSig(v ssa.Value, ct *Contract, sig *types.Signature
 			continue // an assertion about the callee's own calls: not visible to callers
 		}
 		if _, err := post.boolExpr(en.E); err != nil {
-			u.bindingError(fmt.Sprintf("postcondition %d of %s: %v", k+1, ct.Key, err))
+			u.note("postcondition %d of %s cannot be used at this call site and is not assumed: %v", k+1, ct.Key, err)
 			continue
 		}
 		guard := fr.cur
@@ -891,6 +905,26 @@ func (fr *frame) dynamicCall(v ssa.Value, c *ssa.CallCommon, fv Val) Val {
 func (fr *frame) dynamicCallVals(v ssa.Value, c *ssa.CallCommon, fv Val, args []Val) Val {
 	u := fr.u
 	sig := c.Value.Type().Underlying().(*types.Signature)
+	// a package-level function variable with a contract of its own (assumed for every function
+	// the variable may hold): the call is a modular call against that contract
+	if ld, ok := c.Value.(*ssa.UnOp); ok {
+		if g, ok := ld.X.(*ssa.Global); ok && g.Pkg != nil {
+			if ct, ok := u.eng.CS.Funcs[g.Pkg.Pkg.Path()+"::"+g.Name()]; ok {
+				ct.used = true
+				if fr.callLog == nil {
+					fr.callLog = map[string][][]Val{}
+				}
+				if fr.resLog == nil {
+					fr.resLog = map[string][]Val{}
+				}
+				fr.callLog[g.Name()] = append(fr.callLog[g.Name()], args)
+				fr.notePos(g.Name(), v.(ssa.Instruction))
+				res := fr.contractCallSigNames(v, ct, sig, args, v.(ssa.Instruction), g.Name(), nil)
+				fr.resLog[g.Name()] = append(fr.resLog[g.Name()], res)
+				return res
+			}
+		}
+	}
 	// callback clause of the enclosing top-level contract, by parameter name
 	cbName := ""
 	if p, ok := c.Value.(*ssa.Parameter); ok {
@@ -906,6 +940,22 @@ func (fr *frame) dynamicCallVals(v ssa.Value, c *ssa.CallCommon, fv Val, args []
 				}
 			}
 		}
+	}
+	if cbName != "" && len(args) > 0 && args[0].typ != nil {
+		// ghost: the set of first arguments this callback has been called with
+		func() {
+			defer func() {
+				if r := recover(); r != nil {
+					if _, ok := r.(unsupported); !ok {
+						panic(r)
+					}
+				}
+			}()
+			ks := u.sortOf(args[0].typ)
+			k := u.regKey("CalledWith."+cbName, "(Array "+ks+" Bool)")
+			u.argKeyType[k] = args[0].typ
+			fr.st.set(k, "(store "+fr.st.get(u, k)+" "+fr.term(args[0])+" true)")
+		}()
 	}
 	if p := (cbParam{cbName}); cbName != "" && fr.contract != nil {
 		for k, cl := range fr.contract.CallbackPre[p.Name()] {
@@ -1190,3 +1240,28 @@ func (fr *frame) iterateClosure(cl Val, pos ssa.Instruction) {
 type cbParam struct{ name string }
 
 func (c cbParam) Name() string { return c.name }
+
+func (fr *frame) notePos(name string, ins ssa.Instruction) {
+	if fr.callPos == nil {
+		fr.callPos = map[string][]token.Pos{}
+	}
+	var p token.Pos
+	if ins != nil {
+		p = ins.Pos()
+	}
+	fr.callPos[name] = append(fr.callPos[name], p)
+}
+
+// callOrder: indices of the recorded calls to name, in source order (position, then record order)
+func (fr *frame) callOrder(name string, n int) []int {
+	idx := make([]int, n)
+	for i := range idx {
+		idx[i] = i
+	}
+	ps := fr.callPos[name]
+	if len(ps) != n {
+		return idx
+	}
+	sort.SliceStable(idx, func(a, b int) bool { return ps[idx[a]] < ps[idx[b]] })
+	return idx
+}
